@@ -90,7 +90,7 @@ impl Prop for Sem {
             },
             Which::C06 => EvidenceSpec {
                 level: "model_checking",
-                rule: "(i) every type-directed program and alias-family program of type int or bool whose evaluation terminates: the real normalize_weak_head of the elaborated term must be the literal the real step* reaches; (ii) in each of the first 30 states of those evaluator graphs (hole-free): the real unify(s, s), unify(s0, s) and unify(s_prev, s) must be true and leave the context empty; (iii) every ordered pair of the N smallest closed hole-free type-directed terms of each goal type: unify(a, b) = unify(b, a) = the reference's conversion verdict (pairs on which the reference runs out of fuel are skipped). non-trivial = programs compared under (i) + pairs compared under (iii)".to_owned(),
+                rule: "(i) every type-directed program and alias-family program of type int or bool whose evaluation terminates: the real normalize_weak_head of the elaborated term must be the literal the real step* reaches; (ii) in each of the first 30 states of those evaluator graphs (hole-free): the real unify(s, s), unify(s0, s) and unify(s_prev, s) must be true and leave the context empty; (iii) every ordered pair of the 420/1000 smallest closed hole-free type-directed terms of each goal type: unify(a, b) = unify(b, a) = the reference's conversion verdict (pairs on which the reference runs out of fuel are skipped). non-trivial = programs compared under (i) + pairs compared under (iii)".to_owned(),
                 assumptions: base_assumptions,
                 evaluations: "evaluations",
                 nontrivial: "nontrivial",
